@@ -43,11 +43,13 @@ def check(ctx):
     m = model(ctx.tree)
     ctx.saw(FILE, "TemplateLoader._prepare_ode_content")
     _r1(ctx, m)
-    _r2_r5(ctx, m)
-    _r3(ctx)
-    # dense / odeint decode of the flattened index (same (row, col) as the CSR arrays): shared with C02.R4
+    # dense / odeint decode of the flattened index (same (row, col) as the CSR arrays): shared with C02.R4; the sentinel literal the
+    # templates compare with is collected for R2
     from .c02 import _r4_templates
-    _r4_templates(ctx, rule_decode="R3", rule_omit="R2")
+    tsent = {}
+    _r4_templates(ctx, rule_decode="R3", rule_omit="R2", sent=tsent)
+    _r2_r5(ctx, m, tsent)
+    _r3(ctx)
     _r4(ctx)
     # who stores into the matrix, and at which index expression (per-system offset of the batched CSR block): shared with C02.R7
     from .c02 import jac_writers
@@ -316,7 +318,7 @@ def _evaluated_after(fl, v, use_seq, after_seq):
 
 # ------------------------------------------------------------------ R2 + R5
 
-def _r2_r5(ctx, m):
+def _r2_r5(ctx, m, tsent=()):
     pkg = package(ctx.tree)
     sent = {}
     fl = m.flow
@@ -340,12 +342,7 @@ def _r2_r5(ctx, m):
                         sent[("thermal wrap kept value", FILE, s.line)] = gc[2][1][1]
     if "csr_sentinel" in ctx.stats:
         sent[("CSR filter", FILE, m.func.lineno)] = ctx.stats["csr_sentinel"]
-    for label, rel, cfg in (("dense template", JAC, {"general.method": "dense"}), ("odeint template", ODEINT, {})):
-        for it, st in J.walk_items(J.flatten(ctx.tree, rel, cfg)):
-            if it[0] == "for" and J.path(it[2]) == "ode.jac.rhs":
-                for x, st2 in J.walk_items(it[3]):
-                    if x[0] == "if" and x[1][0] == "cmp" and x[1][1] == it[1]:
-                        sent[(label, rel, x[4])] = x[1][2][0][1][1] if x[1][2][0][1][0] == "const" else None
+    sent.update(tsent)       # the literal the dense / odeint templates compare an entry with (c02.dense_layout, any spelling of the test)
     # pattern writer
     fn = pkg.method("TemplateLoader", "render")
     ctx.saw(FILE, "TemplateLoader.render")
@@ -487,7 +484,8 @@ def _pattern_writer(ctx, rf, fn, sent):
 
 def _loop_sites(ctx, label, rel, cfg, fname, field, lhs_pat):
     """In function `fname`: exactly one loop writes `lhs[ <index> ] = {{ entry }}`; it must iterate ode.jac.<field>."""
-    items = J.propagate_sets(J.flatten(ctx.tree, rel, cfg))      # `{% set %}` variables read as the expressions they stand for
+    # `{% set %}` variables read as the expressions they stand for, index arithmetic in canonical form (`loop.index - 1` = `loop.index0`)
+    items = J.canon_items(J.propagate_sets(J.flatten(ctx.tree, rel, cfg)))
     sk = Skel(items)
     key = f"{label}:{fname}:ode.jac.{field}"
     hits = []
@@ -611,7 +609,8 @@ def _r4(ctx):
     tree = ctx.tree
     # --- macro definitions
     ctx.saw(MACROS)
-    items = J.propagate_sets(J.flatten(tree, MACROS, {}))        # a size first bound to a `{% set %}` variable is still that expression
+    # a size first bound to a `{% set %}` variable is still that expression; `| count` is `| length`
+    items = J.canon_items(J.propagate_sets(J.flatten(tree, MACROS, {})))
     defs = {}
     prev = ""
     for it in items:
